@@ -203,6 +203,30 @@ pub fn inject_invalid_byte(script: &mut [Resp], rng: &mut Rng) -> bool {
     true
 }
 
+/// Insert 1-3 events of a kind a decoder may be tempted to treat specially (keep-alive pings, an
+/// in-progress notice, a vendor extension, an empty object) into one scripted SSE response, at
+/// seeded positions. Returns false when the script has no SSE response.
+pub fn inject_odd_events(script: &mut [Resp], rng: &mut Rng) -> bool {
+    let idx: Vec<usize> = script.iter().enumerate().filter(|(_, r)| matches!(r, Resp::Sse { events, .. } if !events.is_empty())).map(|(i, _)| i).collect();
+    if idx.is_empty() {
+        return false;
+    }
+    let k = idx[rng.usize_below(idx.len())];
+    if let Resp::Sse { events, .. } = &mut script[k] {
+        for _ in 0..rng.range(1, 3) {
+            let at = rng.usize_below(events.len() + 1);
+            let ev = match rng.below(5) {
+                0 | 1 => SseEv::Raw { event: None, data: serde_json::json!({"type": "ping"}).to_string() },
+                2 => SseEv::Raw { event: Some("ping".into()), data: serde_json::json!({"type": "ping", "cost": 0}).to_string() },
+                3 => SseEv::Raw { event: Some("keepalive".into()), data: "{}".into() },
+                _ => SseEv::Raw { event: None, data: serde_json::json!({"type": "x.vendor.extension", "anything": [1, 2, 3]}).to_string() },
+            };
+            events.insert(at, ev);
+        }
+    }
+    true
+}
+
 pub fn render_sse(events: &[SseEv], interleave: bool, done: &DoneMode, crlf: bool) -> (Vec<u8>, Vec<usize>) {
     let nl = if crlf { "\r\n" } else { "\n" };
     let mut seqno = 0u64;
